@@ -7,7 +7,7 @@ and need to communicate with each other.
 from __future__ import annotations
 
 from collections import defaultdict
-from threading import Lock
+from threading import RLock
 from time import sleep
 from timeit import default_timer as timer
 from typing import TYPE_CHECKING, Dict, List, Optional, Set, Union
@@ -51,7 +51,9 @@ class _SocketHub:
             thread_socket.socket.T_ThreadSocketKey, WeakMethod
         ] = {}
 
-        self._lock: Lock = Lock()
+        # Re-entrant: the garbage collector may run the finalizer of a socket (which
+        # disconnects it) in a thread that is inside one of the locked sections below
+        self._lock = RLock()
 
         self._logger: logging.Logger = get_netqasm_logger(self.__class__.__name__)
 
